@@ -23,7 +23,7 @@ def _replay(prop, path):
         return 2
     rep = Report(prop, 'quick')
     ctx = payload['vector']
-    if isinstance(ctx.get('vector'), dict) and ctx['vector'].get('mode') in ('exlit', 'attr', 'docref', 'annot', 'anndef', 'badtype'):
+    if isinstance(ctx.get('vector'), dict) and ctx['vector'].get('mode') in ('exlit', 'attr', 'docref', 'annot', 'anndef', 'badtype', 'subtype'):
         from litcheck import LitJudge
         j = LitJudge({'prop': prop})
         j.on_vec('VEC', ctx['vector'])
